@@ -101,6 +101,8 @@ structure Node where
   skipTimeoutCommit : Bool
   cfg : Cfg
   out : List Emit
+  /-- GHOST (history variable, read by no transition): every vote the node has signed, oldest first -/
+  signed : List VoteSet.Vote
   deriving Repr
 
 def vsVals (vs : ValSet.ValSet) : List VoteSet.Validator := vs.vals.map fun v => ⟨v.addr, v.power⟩
@@ -158,7 +160,8 @@ def signAddVote (n : Node) (type : Nat) (bid : VoteSet.BlockID) : Node :=
       (UInt8.ofNat type :: bid.hash) .ok
     if res.2.isReleased then
       { n with signer := res.1,
-               queue := n.queue ++ [.vote ⟨i, a, n.height, n.round, type, bid, 0⟩ true] }
+               queue := n.queue ++ [.vote ⟨i, a, n.height, n.round, type, bid, 0⟩ true],
+               signed := n.signed ++ [⟨i, a, n.height, n.round, type, bid, 0⟩] }
     else { n with signer := res.1 }
   | _, _ => n
 
@@ -452,7 +455,7 @@ def init (cfg : Cfg) (height : Int) (vals : ValSet.ValSet) (me : Option Nat) (sk
       rounds := [], hvsRound := 0, catchup := [], commitRound := -1, lastCommit := none,
       vals, vals0 := vals, me, signer := Signer.init, queue := [], validTab := [], fresh := 0,
       ownPrefix := [0x6F],
-      skipTimeoutCommit := skip, cfg, out := [] }
+      skipTimeoutCommit := skip, cfg, out := [], signed := [] }
   { n with rounds := [newRoundVotes n height 0] }
 
 end AnnVerif.Node
